@@ -121,16 +121,17 @@ def _series(case, rows):
 class StampViolation(Exception):
     pass
 
-def _bi(case, s, rows):
+def _bi(case, s, rows, i=None):
     """Bi(series, stamp) plus the direct check of the stamp assignment: same rows, same values, every row stamped exactly with the stamp"""
     ser = _series(case, rows); t = stamp_dt(case, s)
-    if case.get('input') == 'frame':          # the version handed over as a one-column DataFrame instead of a Series
-        ser0 = ser; ser = ser.to_frame(name='_is_series')
+    col = case['cols'][i] if (case.get('cols') and i is not None) else ('_is_series' if case.get('input') == 'frame' else None)
+    if col is not None:          # the version handed over as a one-column DataFrame instead of a Series; 'cols': a column name per version
+        ser0 = ser; ser = ser.to_frame(name=col)      # (differently named one-column frames and Series merge into one series, bi_merge docstring)
     before = _frame_state(ser)
     b = Bi(ser, spell(t, case.get('stamp_form', 'dt')))
     if _frame_state(ser) != before or b is ser:
         raise StampViolation('Bi(x, stamp) changed / returned its input: %s -> %s' % (before[:2], _frame_state(ser)[:2]))
-    if case.get('input') == 'frame':
+    if col is not None:
         ser = ser0
     ok = (len(b) == len(ser) and list(b.index) == list(ser.index) and 'updated' in b.columns and len(b.columns) == 2
           and all(pd.Timestamp(u) == pd.Timestamp(t) for u in b['updated'])
@@ -229,14 +230,14 @@ def impl(case):
             store, notes = publish_work(case)
         else:
             for g in groups_of(case):
-                bis = [_bi(case, *hist[i]) for i in g]
+                bis = [_bi(case, *hist[i], i) for i in g]
                 store = bi_merge(store, bis[0] if len(bis) == 1 else bis)
         reads = read_all(store)
         st_obs = _obs_store(case, store)
         k = case.get('again')
         reads2 = []
         if k is not None:
-            reads2 = read_all(bi_merge(store, _bi(case, *hist[k])))
+            reads2 = read_all(bi_merge(store, _bi(case, *hist[k], k)))
     except StampViolation as e:
         return {'status': 'ok', 'obs': ['ERR', 'Bi'], 'viol': str(e)}
     except Exception as e:
@@ -287,7 +288,7 @@ def shape(case):
     era = 'past' if cal[-1] < FUTURE else 'future' if cal[0] >= FUTURE else 'past+future'
     h = case['hist']
     ordered = all(h[i][0] <= h[i + 1][0] for i in range(len(h) - 1))
-    extras = (':dates=%s' % date_era(case)) + ''.join(':%s=%s' % (k, case[k]) for k in ('work', 'pub', 'input') if case.get(k)) + ''.join(':' + k for k in ('tod', 'groups', 'index_name', 'series_name', 'int_dtype') if case.get(k)) + \
+    extras = (':dates=%s' % date_era(case)) + (':cols' if case.get('cols') else '') + ''.join(':%s=%s' % (k, case[k]) for k in ('work', 'pub', 'input') if case.get(k)) + ''.join(':' + k for k in ('tod', 'groups', 'index_name', 'series_name', 'int_dtype') if case.get(k)) + \
              ''.join(':%s=%s' % (k, case[k]) for k in ('eps', 'stamp_form', 'asof_form') if case.get(k))
     vals = {v for _, rows in h for _, v in rows}
     return '%s:%s:v%d:%s%s%s%s%s' % (era, 'ordered' if ordered else 'unordered', len(h), 'rows>100' if n > 100 else 'rows>16' if n > 16 else 'rows<=16',
@@ -391,6 +392,9 @@ def decorate(rng, case, work=False):
         case['series_name'] = rng.choice(['px', 'value', 0])
     elif rng.random() < 0.15:
         case['input'] = 'frame'
+    elif rng.random() < 0.2:      # versions as Series and as one-column frames whose column names clash ('a', 'b'): still ONE series
+        names = rng.choice([[None, 'a'], [None, 'a', 'b'], ['a', 'b'], ['a'], ['px', None]])
+        case['cols'] = [rng.choice(names) for _ in case['hist']]
     if rng.random() < 0.2:
         case['int_dtype'] = True
     if rng.random() < 0.15:       # infinite values are values like any other
@@ -412,12 +416,12 @@ def shrink(case):
         yield dict(case, again=None)
     if case.get('groups'):
         yield {k: v for k, v in case.items() if k != 'groups'}
-    for k in ('tod', 'eps', 'stamp_form', 'asof_form', 'index_name', 'series_name', 'int_dtype', 'cal', 'dshift'):
+    for k in ('tod', 'eps', 'stamp_form', 'asof_form', 'index_name', 'series_name', 'int_dtype', 'cal', 'dshift', 'cols'):
         if case.get(k) is not None:
             yield {kk: v for kk, v in case.items() if kk != k}
     for i in range(len(h)):
         if len(h) > 1 and case.get('again') is None and not case.get('groups'):
-            yield dict(case, hist=h[:i] + h[i + 1:])
+            yield dict(case, hist=h[:i] + h[i + 1:], **({'cols': case['cols'][:i] + case['cols'][i + 1:]} if case.get('cols') else {}))
     # drop one date everywhere
     dates = sorted({d for _, rows in h for d, _ in rows})
     for d in dates:
